@@ -33,6 +33,17 @@ pub struct Receiver<Codec = codec::Default> {
     eof_verified: bool,
 }
 
+/// A receiver in transport, serialized by reference.
+///
+/// This must serialize exactly like [TransportedReceiver].
+#[derive(Serialize)]
+#[serde(rename = "TransportedReceiver")]
+#[serde(bound(serialize = "Codec: codec::Codec"))]
+struct TransportedReceiverRef<'a, Codec> {
+    bin_receiver: &'a bin::Receiver,
+    size: &'a SizeInfo<Codec>,
+}
+
 enum ReceiverState {
     Idle,
     Receiving(ReusableBoxFuture<'static, Result<(Option<DataBuf>, bin::Receiver), io::Error>>),
@@ -269,19 +280,19 @@ where
     where
         S: serde::Serializer,
     {
-        let bin_receiver =
-            self.bin_receiver.lock().unwrap().take().ok_or_else(|| {
-                serde::ser::Error::custom("cannot serialize: channel already connected or closed")
-            })?;
+        // The receiver must stay intact, because a value may be serialized more than once,
+        // for example when it does not fit into a single buffer or when sending is retried.
+        let bin_receiver = self.bin_receiver.lock().unwrap();
+        let bin_receiver = bin_receiver.as_ref().ok_or_else(|| {
+            serde::ser::Error::custom("cannot serialize: channel already connected or closed")
+        })?;
 
-        let size = self
-            .size_info
-            .lock()
-            .unwrap()
-            .take()
+        let size = self.size_info.lock().unwrap();
+        let size = size
+            .as_ref()
             .ok_or_else(|| serde::ser::Error::custom("cannot serialize: size info already consumed"))?;
 
-        TransportedReceiver::<Codec> { bin_receiver, size }.serialize(serializer)
+        TransportedReceiverRef::<Codec> { bin_receiver, size }.serialize(serializer)
     }
 }
 
